@@ -366,8 +366,17 @@ void kkt_case(vt::Rng& rng, int64_t icase)
     }
     else if (kind == 3)
     {
-        // a strictly feasible user start when one is known
+        // a strictly feasible user start: an interior-point iterate of a first solve, moved a little towards the analytic centre-ish side
         state = solve(P);
+        if (state.m_status == solver_status::converged && P.G.rows() > 0)
+        {
+            const vector_t x0 = state.m_x;
+            if ((P.G.matrix() * x0.vector() - P.h.vector()).maxCoeff() < 0.0)
+            {
+                state = solve(P, &x0);
+                label = "optimal"; // a strictly feasible start must not be refused
+            }
+        }
     }
     else
     {
@@ -404,7 +413,7 @@ void pair_case(vt::Rng& rng, int64_t icase)
     {
         for (tensor_size_t i = 0; i < R.G.rows(); ++i)
         {
-            const auto s = std::pow(2.0, static_cast<double>(rng.range(-3, 3)));
+            const auto s = rng.coin() ? std::pow(2.0, static_cast<double>(rng.range(-3, 3))) : std::pow(10.0, rng.uniform(-2.0, 2.0));
             R.G.matrix().row(i) *= s;
             R.h(i) *= s;
         }
@@ -412,7 +421,8 @@ void pair_case(vt::Rng& rng, int64_t icase)
     }
     else if (kind == 2)
     {
-        const auto s = std::pow(2.0, static_cast<double>(rng.range(-3, 3)));
+        // (also far down: below 1e-3 the solver's normalisation of the objective is clamped)
+        const auto s = rng.coin() ? std::pow(2.0, static_cast<double>(rng.range(-3, 3))) : std::pow(10.0, rng.uniform(-6.0, 3.0));
         R.Q.matrix() *= s;
         R.c.vector() *= s;
         R.fstar *= s;
@@ -422,7 +432,7 @@ void pair_case(vt::Rng& rng, int64_t icase)
     {
         for (tensor_size_t i = 0; i < R.A.rows(); ++i)
         {
-            const auto s = (rng.coin() ? -1.0 : 1.0) * std::pow(2.0, static_cast<double>(rng.range(-3, 3)));
+            const auto s = (rng.coin() ? -1.0 : 1.0) * (rng.coin() ? std::pow(2.0, static_cast<double>(rng.range(-3, 3))) : std::pow(10.0, rng.uniform(-2.0, 2.0)));
             R.A.matrix().row(i) *= s;
             R.b(i) *= s;
         }
